@@ -125,6 +125,8 @@ RULES += [
     {"_extra": [["lib.yaml", [{"name": "@imm", "pattern": "mov"}]]], "pattern": ["@imm", "add"]},
     {"_extra": [["lib.yaml", [{"name": "@imm", "pattern": "xor"}]]], "pattern": ["@imm", "xor"]},
     {"_extra": [["regs.yaml", [{"name": "@x", "pattern": "mov"}]]], "pattern": ["@x", "@y"]},   # @y undefined: must fail every time
+    # the same macro NAME and invocation as rule 6, another body (nothing about a macro outlives its rule)
+    {"macros": [{"name": "@z", "args": ["p"], "pattern": [{"mov": ["p", "p"]}]}], "pattern": [{"@z": None, "p": "rax"}, "add"]},
     # a config that is rejected (sections must be a list) after its first option was already read: must fail every time and
     # must not change what the next operation sees
     {"config": {"mnemonics-full-match": False, "sections": ".text"}, "pattern": ["mov"]},
